@@ -12,7 +12,7 @@ import (
 
 func genC01(rt *rapid.T) Scenario {
 	return genScenario(rt, Profile{MinTargets: 2, MaxTargets: 4, MinSets: 1, MaxSets: 5, MultiTarget: true, Poison: true, Offline: true,
-		Crashes: 2, Preempt: 2, Drawn: true, Serializable: true})
+		Crashes: 2, Preempt: 2, Drawn: true, Serializable: true, Pace: true})
 }
 
 // checkAnswers verifies the handlers' verdicts against the reference (shared
